@@ -246,6 +246,9 @@ func touch(m *service.Message) byte {
 	for _, b := range m.ExtensionFields.PlatformData {
 		x ^= b
 	}
+	if m.ExtensionFields.Err != nil {
+		x ^= 1
+	}
 	return x
 }
 
